@@ -23,6 +23,9 @@ func init() {
 			{ID: "C09-R6", Doc: "combine errors propagate", Run: c09r6},
 			{ID: "C09-R7", Doc: "slot bookkeeping in both probe arms and in rehash", Run: c09r7},
 			{ID: "C09-R8", Doc: "every combiner created or taken is read back, discarded or handed on, on every path", Run: c09r8},
+			{ID: "C09-R9", Doc: "rows taken out of a combining frame (Compact) are handed on, on every path", Run: c09r9},
+			{ID: "C10-R4", Doc: "the reducing merge used to read a spilled combiner back repairs its heap after every cursor move (shared)", Run: c10r4},
+			{ID: "C10-R6", Doc: "reducing merge: combined value stored before refill (shared)", Run: c10r6},
 		},
 	})
 }
